@@ -170,6 +170,31 @@ def _bind_arguments(helper: ast.FunctionDef, call: ast.Call, suffix: str) -> Opt
     return stmts
 
 
+def _method_kind(func: ast.FunctionDef) -> str:
+    for dec in func.decorator_list:
+        if isinstance(dec, ast.Name) and dec.id in ("classmethod", "staticmethod"):
+            return dec.id
+    return "instance"
+
+
+def helper_key(call: ast.Call, helpers) -> Optional[str]:
+    """Key in ``helpers`` of the private helper a call refers to: a module-level function ``_f(...)``, a class/static
+    method of a private class ``_Cls.m(...)``, or an instance method ``obj.m(...)`` whose name is defined by exactly
+    one private class of the module (``.m`` -> ``_Cls.m``)."""
+    func = call.func
+    if isinstance(func, ast.Name):
+        return func.id if func.id in helpers else None
+    if isinstance(func, ast.Attribute) and isinstance(func.value, ast.Name):
+        direct = f"{func.value.id}.{func.attr}"
+        if direct in helpers and getattr(helpers[direct], "_method_kind", "") in ("classmethod", "staticmethod"):
+            return direct
+        unique = helpers.get("." + func.attr)
+        if unique is not None and getattr(unique, "_method_kind", "") == "instance" and not func.value.id.startswith("numpy") \
+                and func.value.id not in ("numpoly", "self", "cls"):
+            return "." + func.attr
+    return None
+
+
 def _helper_call(stmt: ast.stmt):
     """(call, kind) for the three inlinable statement shapes."""
     if isinstance(stmt, ast.Assign) and isinstance(stmt.value, ast.Call):
@@ -203,9 +228,9 @@ class _Hoist(ast.NodeTransformer):
 
     def visit_Call(self, node):
         node = self.generic_visit(node)
-        if node is not self.keep and isinstance(node.func, ast.Name) and node.func.id in self.helpers \
-                and node.func.id not in self.stack:
-            name = f"HOIST__{node.func.id.strip('_')}{next(_COUNTER)}"
+        key = helper_key(node, self.helpers)
+        if node is not self.keep and key is not None and key not in self.stack:
+            name = f"HOIST__{key.strip('_.').replace('.', '_')}{next(_COUNTER)}"
             assign = ast.Assign(targets=[ast.Name(id=name, ctx=ast.Store())], value=node)
             ast.copy_location(assign, node)
             ast.fix_missing_locations(assign)
@@ -218,7 +243,7 @@ def _hoist(stmt: ast.stmt, helpers, stack) -> List[ast.stmt]:
     """Helper calls buried in the expressions of a simple statement (or an if-test) -> preceding assignments."""
     if isinstance(stmt, (ast.Assign, ast.AugAssign, ast.AnnAssign, ast.Expr, ast.Return)):
         call, _kind = _helper_call(stmt)
-        keep = call if call is not None and isinstance(call.func, ast.Name) and call.func.id in helpers else None
+        keep = call if call is not None and helper_key(call, helpers) is not None else None
         hoist = _Hoist(helpers, stack, keep)
         for field, value in list(ast.iter_fields(stmt)):
             if isinstance(value, ast.expr):
@@ -297,7 +322,52 @@ def inlinable_helpers(tree: ast.Module) -> Dict[str, ast.FunctionDef]:
                 node = eager
             if not _has_bad_constructs(node) and _returns_in_tail_position(node.body):
                 out[node.name] = node
+    # methods of private module-level classes (records with a parse / restore / build method)
+    seen_names: Dict[str, int] = {}
+    for node in tree.body:
+        if isinstance(node, ast.ClassDef) and node.name.startswith("_"):
+            for item in node.body:
+                if isinstance(item, ast.FunctionDef) and not item.name.startswith("__"):
+                    seen_names[item.name] = seen_names.get(item.name, 0) + 1
+    for node in tree.body:
+        if not (isinstance(node, ast.ClassDef) and node.name.startswith("_")):
+            continue
+        for item in node.body:
+            if not isinstance(item, ast.FunctionDef) or item.name.startswith("__"):
+                continue
+            kind = _method_kind(item)
+            others = [d for d in item.decorator_list if not (isinstance(d, ast.Name) and d.id in ("classmethod", "staticmethod"))]
+            if others or not item.args.args and kind != "staticmethod":
+                continue
+            clone = copy.deepcopy(item)
+            clone.decorator_list = []
+            eager = _eager_generator(clone)
+            if eager is not None:
+                clone = eager
+            if kind == "classmethod":
+                first = clone.args.args.pop(0).arg
+                clone = _Substitute({first: node.name}).visit(clone)
+            if _has_bad_constructs(clone) or not _returns_in_tail_position(clone.body):
+                continue
+            clone._method_kind = kind  # type: ignore[attr-defined]
+            clone._owner = node.name  # type: ignore[attr-defined]
+            ast.fix_missing_locations(clone)
+            out[f"{node.name}.{item.name}"] = clone
+            if kind == "instance" and seen_names.get(item.name) == 1:
+                out["." + item.name] = clone
     return out
+
+
+class _Substitute(ast.NodeTransformer):
+    """Replace loads of a name by another name (``cls`` -> the class it is bound to)."""
+
+    def __init__(self, mapping: Dict[str, str]):
+        self.mapping = mapping
+
+    def visit_Name(self, node):
+        if node.id in self.mapping and isinstance(node.ctx, ast.Load):
+            return ast.copy_location(ast.Name(id=self.mapping[node.id], ctx=ast.Load()), node)
+        return node
 
 
 def inline_block(stmts: List[ast.stmt], helpers, stack, used: Set[str], depth: int) -> List[ast.stmt]:
@@ -309,12 +379,17 @@ def inline_block(stmts: List[ast.stmt], helpers, stack, used: Set[str], depth: i
                 out.extend(inline_block(hoisted_pre, helpers, stack, used, depth))
         call, kind = _helper_call(stmt)
         helper = None
-        if call is not None and isinstance(call.func, ast.Name) and call.func.id in helpers \
-                and call.func.id not in stack and depth < MAX_DEPTH:
-            helper = helpers[call.func.id]
+        key = helper_key(call, helpers) if call is not None else None
+        if key is not None and key not in stack and depth < MAX_DEPTH:
+            helper = helpers[key]
         if helper is not None:
             suffix = f"__{helper.name.strip('_')}{next(_COUNTER)}"
-            binding = _bind_arguments(helper, call, suffix)
+            bind_call = call
+            if getattr(helper, "_method_kind", "") == "instance":
+                # obj.m(a, b)  ==  m(obj, a, b)
+                bind_call = ast.Call(func=call.func, args=[call.func.value] + list(call.args), keywords=call.keywords)
+                ast.copy_location(bind_call, call)
+            binding = _bind_arguments(helper, bind_call, suffix)
             if binding is not None:
                 result_name = "RET" + suffix
                 body = copy.deepcopy(helper.body)
@@ -337,17 +412,17 @@ def inline_block(stmts: List[ast.stmt], helpers, stack, used: Set[str], depth: i
                     return [new]
 
                 body = _convert_returns(body, make_result)
-                body = inline_block(body, helpers, stack | {helper.name}, used, depth + 1)
+                body = inline_block(body, helpers, stack | {helper.name, key}, used, depth + 1)
                 for node in binding + body:
                     for sub in ast.walk(node):
                         sub._inlined_from = helper.name  # type: ignore[attr-defined]
                 out.extend(binding + body)
-                used.add(helper.name)
+                used.add(helper.name if not hasattr(helper, "_owner") else f"{helper._owner}.{helper.name}")
                 continue
         # ``for x in _helper(args):`` -> hoist the (inlined) call in front of the loop
-        if isinstance(stmt, (ast.For,)) and isinstance(stmt.iter, ast.Call) and isinstance(stmt.iter.func, ast.Name) \
-                and stmt.iter.func.id in helpers and stmt.iter.func.id not in stack and depth < MAX_DEPTH:
-            tmp_name = f"ITER__{stmt.iter.func.id.strip('_')}{next(_COUNTER)}"
+        if isinstance(stmt, (ast.For,)) and isinstance(stmt.iter, ast.Call) and helper_key(stmt.iter, helpers) is not None \
+                and helper_key(stmt.iter, helpers) not in stack and depth < MAX_DEPTH:
+            tmp_name = f"ITER__{helper_key(stmt.iter, helpers).strip('_.').replace('.', '_')}{next(_COUNTER)}"
             hoisted = ast.Assign(targets=[ast.Name(id=tmp_name, ctx=ast.Store())], value=stmt.iter)
             ast.copy_location(hoisted, stmt)
             pre = inline_block([hoisted], helpers, stack, used, depth)
@@ -378,8 +453,7 @@ def inline_function(func: ast.FunctionDef, helpers: Dict[str, ast.FunctionDef]):
         helpers = {**helpers, **nested}
     if not helpers:
         return func, set()
-    names = {n.func.id for n in ast.walk(func) if isinstance(n, ast.Call) and isinstance(n.func, ast.Name)}
-    if not (names & set(helpers)) or func.name in helpers and False:
+    if not any(isinstance(n, ast.Call) and helper_key(n, helpers) is not None for n in ast.walk(func)):
         return func, set()
     clone = copy.deepcopy(func)
     used: Set[str] = set()
